@@ -44,7 +44,7 @@ class _LikeBut:
     density, geometry, importance, universe, fill, fill transformation, TRCL), including a chain LIKE m BUT .. ->
     LIKE n BUT .. -> n."""
     scope = ('6 base cards x every set of <= 2 overridden parameters among mat, rho, u, fill, trcl, imp (1-2 values '
-             'each) x direct and chained LIKE')
+             'each) x direct and chained LIKE, plus the same parameter overridden at both levels of a chain')
 
     def bounded(tier):
         for bi, base in enumerate(BASE_OPTS):
@@ -52,6 +52,11 @@ class _LikeBut:
                 yield {'bi': bi, 'but': but, 'chain': False}
                 if len(but) == 2:
                     yield {'bi': bi, 'but': but, 'chain': True}
+            # the same parameter overridden at two levels of a chain: the innermost LIKE card wins
+            for k, vals in BUT_OPTS.items():
+                if len(vals) == 2:
+                    yield {'bi': bi, 'but': OrderedDict([(k, vals[1])]), 'chain': (k, vals[0])}
+                    yield {'bi': bi, 'but': OrderedDict([(k, vals[0])]), 'chain': (k, vals[1])}
 
     def call(bi, but, chain):
         from harness import shim
@@ -61,7 +66,12 @@ class _LikeBut:
         p.transforms = OrderedDict([(4, [5.0, 0.0, 0.0, 1.0, 0.0, 0.0, 0.0, 1.0, 0.0, 0.0, 0.0, 1.0])])
         cards = OrderedDict()
         cards[10] = ('2 -1.5', '-1 2', _opts_text(base))
-        if chain:
+        if isinstance(chain, tuple):
+            (k2, v2), = but.items()
+            cards[20] = ('', 'like 10 but', _opts_text({chain[0]: chain[1]}))
+            cards[30] = ('', 'like 20 but', _opts_text({k2: v2}))
+            like = p.parse_one_cell(cards, 2, None, cards[30])
+        elif chain:
             (k1, v1), (k2, v2) = but.items()
             cards[20] = ('', 'like 10 but', _opts_text({k1: v1}))
             cards[30] = ('', 'like 20 but', _opts_text({k2: v2}))
